@@ -681,6 +681,13 @@ def run(info, out):
             cov["generated_cases"] = done
     finally:
         pool.close(); pool.join()
+    if not info["proof_ok"] and not info.get("replay"):
+        # run.py only adds its own "proof-broken" violation when NO violation at all was recorded; a reproduced known finding
+        # must not mask a broken proof obligation: report it here unless the intensified search found a fresh failing input
+        known = open_signatures("C10")
+        if not any(sig not in known for sig, _, _ in out.violations):
+            out.violation("C10:proof-broken", "a proof obligation / translator no longer checks against this tree and the intensified search (%d fits) found no failing input"
+                          % cov["evaluations"], {"no_failing_input_found": True, "broken": info["broken"]})
     cov["distinct_nontrivial"] = len(cov.pop("_hashes"))
     cov["rule"] = ("real monotone fits (1..3 dims, every monodim, orders 1..4, penalty orders 0..3, smoothing 0..64, irregular distinct knots, full or sparse grids, "
                    "random weights incl. 0; data kinds: noisy increasing, decreasing, oscillating, step, negative, constant, spline with non-negative increments); non-trivial = "
